@@ -389,6 +389,45 @@ def multi_case(item):
     return name, ("ok", info.name, kt), fails
 
 
+# ---------------------------------------------------------- lying server
+WRONG_CREDS = ["rsa", "ecdsa", "dsa", "ed25519", "rsapss"]
+CRED_AUTH = {"rsa": "RSA", "rsapss": "RSA", "ecdsa": "ECDSA", "dsa": "DSS",
+             "ed25519": "ECDSA"}
+
+
+def wrongkey_case(item):
+    """A server that negotiates the suite and then authenticates with a key
+    of another type than the suite's name says (its own suite-for-certificate
+    filter is switched off): the client must not complete under that suite.
+    """
+    sid, cred, v, seed = item
+    from ..world import SEAMS
+    from tlslite.constants import CipherSuite as CS
+    info = S.ALL_INFOS[sid]
+    name = "%s/%s/%s" % (info.name, cred, S.VNAME[v])
+    orig = CS.filter_for_certificate
+    CS.filter_for_certificate = staticmethod(
+        lambda suites, cert: list(suites) if SEAMS.current == "S"
+        else orig(suites, cert))
+    try:
+        sc = S.Scen("c20/wrongkey-" + name, version=v, suite=sid, cred=cred)
+        try:
+            pair, out = S.connect(sc, seed=seed)
+        except ValueError:
+            return name, ("invalid-settings",), []
+    finally:
+        CS.filter_for_certificate = orig
+    sm = plaintext_handshake(pair.world.s2c.log)
+    certs = [bd for t, bd in sm if t == 11]
+    kt = cert_key_type(certs[0]) if certs else None
+    fails = []
+    if out["C"].status == "ok":
+        fails.append("client completed %s although the server authenticated "
+                     "with a %s key (%s)" % (info.name, kt, cred))
+    return name, ("sent" if certs else "server-refused", out["C"].sig()[:3]), \
+        fails
+
+
 # ---------------------------------------------------------------- MITM
 def rewrite_ch_suites(rec, sid):
     """Replace the cipher suite list of a ClientHello record by [sid, SCSV]
@@ -508,7 +547,10 @@ def run(res, tier, seed):
         "protocol version (live handshake, tap, reference record layer "
         "keyed from the IANA name); every suite id x version substituted "
         "into ClientHello (server victim) and ServerHello (client victim) by "
-        "a MITM; distinct by (suite, version, role); non-trivial = the "
+        "a MITM; every certificate-authenticated TLS <= 1.2 suite x every "
+        "server credential of another key type, served by a server whose "
+        "suite-for-certificate filter is off (client victim); distinct by "
+        "(suite, version, role); non-trivial = the "
         "handshake reached ServerHello")
     items = [(v, sid, seed) for sid in sorted(S.ALL_INFOS)
              for v in S.VERSIONS]
@@ -563,7 +605,31 @@ def run(res, tier, seed):
                           {"multi": name})
     res.section("multi_credential_server", cases=nmu,
                 credential_pairs=MULTI_CREDS, clients=sorted(MULTI_CLIENTS))
-    res.coverage["distinct_nontrivial"] = done + n_sel + nmu
+    wk = []
+    for (v, sid) in S.suite_version_pairs():
+        info = S.ALL_INFOS[sid]
+        if info.tls13 or v >= (3, 4) or info.auth not in ("RSA", "ECDSA",
+                                                          "DSS"):
+            continue
+        if tier == "quick" and v != max(
+                vv for (vv, ss) in S.suite_version_pairs()
+                if ss == sid and vv < (3, 4)):
+            continue
+        for cred in WRONG_CREDS:
+            if CRED_AUTH[cred] != info.auth:
+                wk.append((sid, cred, v, seed))
+    nwk = nsent = 0
+    for (name, sig, fails) in pmap(wrongkey_case, wk):
+        nwk += 1
+        nsent += sig[0] == "sent"
+        res.count()
+        res.outcome(("wrongkey",) + tuple(sig))
+        for f in fails:
+            res.violation({"part": "wrong-key-type", "what": f[:40]},
+                          {"case": name, "fail": f}, {"wrongkey": name})
+    res.section("server_key_of_another_type", cases=nwk,
+                wrong_certificate_on_the_wire=nsent)
+    res.coverage["distinct_nontrivial"] = done + n_sel + nmu + nwk
     res.assumptions += [
         "ECC suites under SSLv3 are left open (either outcome accepted)",
         "the draft-00 ChaCha20 suites have no IANA registration; their "
